@@ -368,6 +368,8 @@ def _rel_sources_ok(e, obj):
         return all(_rel_sources_ok(a, obj) for a in e.args)
     if isinstance(e, ast.IfExp):
         return _rel_sources_ok(e.body, obj) and _rel_sources_ok(e.orelse, obj)
+    if isinstance(e, ast.BoolOp):
+        return all(_rel_sources_ok(v, obj) for v in e.values)
     return False
 
 
